@@ -559,7 +559,8 @@ def check_input(seed, width, length, prob_robot_break, prob_light_break, prob_lo
 
 
 def prob_to_str(prob):
-    return str(int(prob*100))
+    # round, do not truncate: 0.29*100 is 28.999999999999996
+    return str(int(round(prob*100)))
 
 
 def main():
